@@ -712,7 +712,39 @@ void vf_run(vf_rd *r, vf_report *rep) {
 
 /* deterministic sweep: every value within +-300 of every table boundary, for
  * every family and put variant; all sign-helper magnitudes near field edges */
+/* exhaustive over the 2^32 domain of the 32-bit entry points (thorough tier,
+ * partitioned over processes) */
+static void sweep_u32(vf_report *rep) {
+    ctx c;
+    memset(&c, 0, sizeof(c));
+    c.rep = rep;
+    c.fill = 0x5A;
+    uint64_t part, parts;
+    vf_sweep_part(&part, &parts);
+    uint64_t lo = (part << 32) / parts, hi = ((part + 1) << 32) / parts;
+    uint64_t evals = 0;
+    for (uint64_t v = lo; v < hi && !rep->violated; v++) {
+        c.align = (unsigned)(v & 15);
+        c.fam = "tagged";
+        do_tagged(&c, 3, v, 0);
+        c.fam = "chained";
+        do_chained(&c, 1, v);
+        c.fam = "chainedSimple";
+        do_csimple(&c, 1, v);
+        evals += 3;
+    }
+    vf_evals(evals);
+    vf_class_n("sweep.u32.evals", evals);
+    /* two representative distinct hashes so the part is visible in the union */
+    vf_nontrivial(vf_mix(0x32, lo));
+    vf_nontrivial(vf_mix(0x32, hi - 1));
+}
+
 void vf_sweep(vf_report *rep) {
+    if (strcmp(vf_sweep_name(), "u32") == 0) {
+        sweep_u32(rep);
+        return;
+    }
     ctx c;
     memset(&c, 0, sizeof(c));
     c.rep = rep;
